@@ -12,6 +12,12 @@ def hook_commits():
         return []
 
 CHECKS = {
+ "C01": dict(
+    level="exploration",
+    technique="rapid-generated valid-by-construction configurations + bounded feature lattice; oracle = go/format + go/parser + the real Go type checker and linker on the generated package inside a fixture module pinned to the repository's runtime version, then package initialisation in a probe binary",
+    text="Thousands of accepted configurations per run (random batches over all documented features in normal and --stub mode, every single feature and feature pairs of a 50+-entry lattice) are compiled and initialised against the real runtime; any accepted configuration whose output is not gofmt-stable, does not type-check or panics in init is a violation.",
+    note="Trusts the Go toolchain as judge and the fixture universe (every named symbol exists with a compatible shape). Identifier pools exclude keywords/predeclared names (the property's precondition). Open known finding: aliases named exactly like a package the template itself imports.",
+    ref="DESIGN.md §4 C01"),
  "C18": dict(
     level="exploration",
     technique="bounded-exhaustive + rapid random generation of (build, declared) version pairs against an independent strict-semver oracle; differential in-process vs linked binaries",
